@@ -589,7 +589,7 @@ func (s *Server) inheritClientSession(pk packets.Packet, cl *Client) bool {
 
 		existing.State.isTakenOver.Store(true)
 		if existing.State.Inflight.Len() > 0 {
-			cl.State.Inflight = existing.State.Inflight.Clone() // [MQTT-3.1.2-5]
+			cl.State.Inflight = existing.State.Inflight.Clone()               // [MQTT-3.1.2-5]
 			atomic.AddInt64(&s.Info.Inflight, int64(cl.State.Inflight.Len())) // the inherited messages stay in flight; existing.ClearInflights below subtracts the originals
 			if cl.State.Inflight.maximumReceiveQuota == 0 && cl.ops.options.Capabilities.ReceiveMaximum != 0 {
 				cl.State.Inflight.ResetReceiveQuota(int32(cl.ops.options.Capabilities.ReceiveMaximum)) // server receive max per client
@@ -1651,8 +1651,8 @@ func (s *Server) loadSubscriptions(v []storage.Subscription) {
 			NoLocal:           sub.NoLocal,
 			Identifier:        sub.Identifier,
 		}
-		if s.Topics.Subscribe(sub.Client, sb) {
-			if cl, ok := s.Clients.Get(sub.Client); ok {
+		if cl, ok := s.Clients.Get(sub.Client); ok { // no restored session, no subscription
+			if s.Topics.Subscribe(sub.Client, sb) {
 				cl.State.Subscriptions.Add(sub.Filter, sb)
 			}
 		}
